@@ -24,6 +24,8 @@ pub struct WCase {
     pub compiled: bool,
     pub compile_errors: Vec<String>,
     pub no_serialize: bool,
+    /// IR extracted leniently only (model tie already reported broken): oracles on the implementation still run
+    pub lenient: bool,
 }
 
 pub struct Universe {
@@ -118,6 +120,7 @@ pub fn build_universe_with(
         let sdl = schema.to_sdl(&RenderKnobs::default());
         let qtext = doc.render();
         let res = ctx.run(&sdl, false, &qtext, &opts);
+        let lenient = res.lenient;
         if !res.diffs.is_empty() {
             rep.disagree(json!({"what": "IR", "diffs": res.diffs.iter().take(5).collect::<Vec<_>>(), "schema": sdl, "query": qtext, "options": opts.describe()}));
         }
@@ -144,7 +147,7 @@ pub fn build_universe_with(
             })
             .collect();
         codes.push(CaseCode { id, prelude: prelude_for(&schema, &opts), tokens, ops, enums, no_serialize });
-        cases.push(WCase { id, schema, doc, sdl, qtext, opts, modules, compiled: false, compile_errors: vec![], no_serialize });
+        cases.push(WCase { id, schema, doc, sdl, qtext, opts, modules, compiled: false, compile_errors: vec![], no_serialize, lenient });
     }
     let build = build_consumer(name, &codes, true, &[]);
     for c in cases.iter_mut() {
@@ -164,7 +167,7 @@ pub fn build_universe_with(
     // model environments
     if ctx.model.available() {
         for c in &cases {
-            if !c.compiled {
+            if !c.compiled || c.lenient {
                 continue;
             }
             for (mi, m) in c.modules.iter().enumerate() {
